@@ -592,6 +592,10 @@ def corpus():
     add('ok-respell', {'DS_1': one()}, [(S('DS_r'), True, ('rename', ('ds', S('DS_1')), [(S('Me_1'), S('me_1'))]))])
     add('ok-aggr-variant', {'DS_1': one()}, [(S('DS_r'), True, ('aggrc', ('ds', S('DS_1')), [(S('me_1'), 'sum', S('Me_1'))], [S('Id_1')]))])
     add('ok-two-results', {'DS_1': one()}, [(S('DS_r'), True, ('binsc', '*', ('ds', S('DS_1')), 2)), (S('ds_r'), True, ('binsc', '*', ('ds', S('DS_1')), 3))])
+    add('ok-twin-inputs-apart', {'DS_1': one(), 'ds_1': ds([('Id_1', I), ('Me_1', N)], (1, 100.0), (2, 200.0), (3, 300.0))},
+        [(S('DS_r'), True, ('binsc', '*', ('ds', S('DS_1')), 2)), (S('ds_r'), True, ('binsc', '*', ('ds', S('ds_1')), 3))])
+    add('ok-twin-inputs-apart-rev', {'ds_1': one(), 'DS_1': ds([('Id_1', I), ('Me_1', N)], (1, 100.0), (2, 200.0), (3, 300.0))},
+        [(S('ds_r'), True, ('binsc', '*', ('ds', S('ds_1')), 2)), (S('DS_r'), True, ('binsc', '*', ('ds', S('DS_1')), 3))])
     add('ok-lower-names', {'ds_1': ds([('id_1', I), ('mE_1', N)], (1, 1.0), (2, 2.0))},
         [(S('ds_r'), True, ('calc', ('ds', S('ds_1')), [(S('ME_2'), ('b', '*', ('c', S('mE_1')), ('k', 2)))]))])
     add('err-wrong-comp', {'DS_1': one()}, [(S('DS_r'), True, ('calc', ('ds', S('DS_1')), [(S('Me_2'), ('b', '*', ('c', S('me_1')), ('k', 2)))]))])
